@@ -7,7 +7,10 @@ import shutil
 from vflib import core, mfrontlib
 from vflib.core import Broken, finish, validate_trace
 
-INPUTS = [("VfYoung.mfront", "c"), ("VfMP.mfront", "generic"), ("VfProbe.mfront", "generic"), ("VfMPLog.mfront", "c")]
+INPUTS = [("VfYoung.mfront", "c"), ("VfMP.mfront", "generic"), ("VfProbe.mfront", "generic"), ("VfMPLog.mfront", "c"),
+          # the octave interface registers a specific target whose command contains double quotes (escaped in the file)
+          ("VfYoung.mfront", "octave")]
+STR = r'"((?:[^"\\]|\\.)*)"'     # a string of targets.lst, escaped quotes included
 
 
 def parse_registry(path):
@@ -20,17 +23,28 @@ def parse_registry(path):
     items = []
     for m in re.finditer(r"library\s*:\s*\{(.*?)\n\};", txt, re.S):
         blk = m.group(1)
-        n = re.search(r'name\s*:\s*"([^"]*)"', blk)
+        n = re.search(r'name\s*:\s*' + STR, blk)
         if not n:
             return "partial", []
         items.append("lib:" + n.group(1))
         for key, tag in (("sources", "src"), ("epts", "ept")):
             k = re.search(key + r"\s*:\s*\{(.*?)\}", blk, re.S)
             if k:
-                items += ["%s:%s:%s" % (tag, n.group(1), s) for s in re.findall(r'"([^"]*)"', k.group(1))]
+                items += ["%s:%s:%s" % (tag, n.group(1), x) for x in re.findall(STR, k.group(1))]
+    # specific targets: name, commands (text as written, escapes included), sources, dependencies
+    for m in re.finditer(r"target\s*:\s*\{(.*?)\n\};", txt, re.S):
+        blk = m.group(1)
+        n = re.search(r'name\s*:\s*' + STR, blk)
+        if not n:
+            return "partial", []
+        items.append("tgt:" + n.group(1))
+        for key, tag in (("commands", "cmd"), ("sources", "tsrc"), ("dependencies", "dep")):
+            k = re.search(key + r"\s*:\s*\{(.*?)\n\}", blk, re.S)
+            if k:
+                items += ["%s:%s:%s" % (tag, n.group(1), x) for x in re.findall(STR, k.group(1))]
     h = re.search(r"\nheaders\s*:\s*\{(.*?)\}", txt, re.S)
     if h:
-        items += ["hdr:" + s for s in re.findall(r'"([^"]*)"', h.group(1))]
+        items += ["hdr:" + x for x in re.findall(STR, h.group(1))]
     return "valid", sorted(set(items))
 
 
@@ -82,10 +96,12 @@ def run(ctx):
         desc[(inp, iface)] = items
     # ---- histories ----
     hists = []
-    A, B, C, D = INPUTS
+    A, B, C, D, E = INPUTS
     # clean accumulation, repetition (write then re-read is the identity), permutation
     hists.append([(A, None), (B, None), (C, None), (A, None), (D, None)])
     hists.append([(C, None), (C, None), (B, None)])
+    # entries with quoted text must survive being read back and written again, several times
+    hists.append([(E, None), (B, None), (B, None), (E, None), (A, None)])
     # crash of the second run at every system call on the registry, then a clean run
     points = [(s, n) for s in ("openat", "write", "close") for n in (1, 2, 3)]
     for p in points:
